@@ -7,10 +7,17 @@ PLAN = dict(
         thorough=[(R, "thorough", 16), (D, "quick", 16)],
     ),
     rule=("cases are (a) generated names with 0-4 '-', empty parts, 'nb' inside the base, several 'nb' in the "
-          "version, leading zeros, revisions of up to 18 digits and non-ASCII text, (b) the 21 721 real pkgsrc "
-          "names, each checked for PkgName base/version = split at the last '-', losslessness, pkgrevision "
-          "(only for versions ending in nb<digits> or containing no 'nb' in any case) and agreement of "
-          "Summary::pkgbase/pkgversion when base and version are non-empty; (c) black-box probes "
+          "version, leading zeros, revisions of up to 18 digits and non-ASCII text, a quarter of them with a "
+          "dictionary ending (.tgz .tbz .txz .tzst .tar.gz .pkg .orig ~ / blank newline ...) and/or beginning "
+          "(./ / All/ ../../cat/ BOM + blank ...) attached, (b) the 21 721 real pkgsrc names, each as it is and "
+          "once more with one of those endings/beginnings, each checked for PkgName base/version = split at the "
+          "last '-', losslessness, pkgrevision (only for versions ending in nb<digits> or containing no 'nb' in "
+          "any case) and agreement of Summary::pkgbase/pkgversion when base and version are non-empty. The "
+          "Summary side is observed on a fresh entry with only set_pkgname, after every call of a random setter / "
+          "pusher history that sets the other variables before and after set_pkgname (PKGPATH = 'cat/<name up to "
+          "one of its dashes>' in 3 of 5 histories, otherwise unrelated; FILE_NAME, DEPENDS, ... built from "
+          "pieces of the name; sometimes a different PKGNAME first), and on an entry parsed by Summary::from_str "
+          "from a complete text with the same kinds of values in random line order; (c) black-box probes "
           "base-PREFIXnbN matched against base{>=,>,<=,<}PREFIXnb{N-1,N,N+1} through Pattern, which pins the "
           "revision the matcher uses to the one pkgrevision() reports. Non-trivial = >= 2 dashes or >= 2 'nb' "
           "in the name, and every probe; distinct = distinct names by 64-bit fingerprint."),
@@ -26,5 +33,6 @@ PLAN = dict(
     not_explored=["pkgrevision for versions that contain 'nb' but do not end in nb<digits> ('1nb3alpha', '1.0nb') or use upper case ('1.0NB3'): the statement is silent",
                   "revisions longer than 18 digits",
                   "Summary accessors for names with an empty base or version, or without '-'",
+                  "entry texts that Summary::from_str rejects or whose pkgname() is not the PKGNAME line's value are not compared here (C07/C08); names containing a line break are not put into a text",
                   "probe prefixes with letters outside modifiers (reach of known finding K1)"],
 )
